@@ -15,3 +15,43 @@ Print Assumptions C08_src_is_inside.
 Example C08_src_nonvacuous : src_timeperiod_is_inside_recognised = true -> src_timeperiod_is_inside 15 false 0 false 100 true [(10, 15); (15, 16)] = true /\ src_timeperiod_is_inside 16 false 0 false 100 true [(10, 15); (15, 16)] = false.
 Proof. intro H; xl_rec H. all: repeat split; vm_compute; reflexivity. Qed.
 
+
+(* ---------------------------------------------------------------------------------------------------------------------
+   Round 2 (notes/XLATE.md section 8): the segment arithmetic of TimePeriod as translated from /repo on this run
+   (coq/Facts/Facts_fn_tp2.v): loop bodies with in-place edits are translated per iteration (the edited segment = state). *)
+From Icv Require Import Facts.Facts_fn_tp2 Src.SrcTp2.
+
+(* AddSegment's merge loop: one iteration is one unfolding of tp_add_merge (returning = the new segment was absorbed) *)
+Theorem C08_src_add_segment_iter : src_timeperiod_add_segment_iter_recognised = true ->
+  forall b e sb se r,
+    tp_add_merge b e ((sb, se) :: r)
+    = let '(ret, sb', se') := src_timeperiod_add_segment_iter b e sb se in
+      if ret then Some ((sb', se') :: r)
+      else match tp_add_merge b e r with Some r' => Some ((sb, se) :: r') | None => None end.
+Proof. exact src_timeperiod_add_segment_iter_eq. Qed.
+Print Assumptions C08_src_add_segment_iter.
+
+(* RemoveSegment's loop: one iteration appends tp_remove_one (dropped / kept / cut in two / trimmed), with today's comparisons *)
+Theorem C08_src_remove_segment_iter : src_timeperiod_remove_segment_iter_recognised = true ->
+  forall b e sb se, snd (src_timeperiod_remove_segment_iter b e sb se) = tp_remove_one true b e (sb, se).
+Proof. exact src_timeperiod_remove_segment_iter_eq. Qed.
+Print Assumptions C08_src_remove_segment_iter.
+
+(* PurgeSegments = tp_purge: nothing happens without a valid_begin or for an instant before it; otherwise valid_begin moves and
+   the segments that end before the instant are dropped *)
+Theorem C08_src_purge_segments : src_timeperiod_purge_segments_recognised = true ->
+  forall e s,
+    src_timeperiod_purge_segments e (xt_none (tp_vb s)) (xt_val (tp_vb s)) true (tp_segs s)
+    = (if xt_purges e s then e else xt_val (tp_vb s),
+       if xt_purges e s then tp_segs (tp_purge e s) else [],
+       if xt_purges e s then [tt] else []) /\
+    (xt_purges e s = false -> tp_purge e s = s) /\
+    (xt_purges e s = true -> tp_vb (tp_purge e s) = Some e /\ tp_ve (tp_purge e s) = tp_ve s).
+Proof. exact src_timeperiod_purge_segments_eq. Qed.
+Print Assumptions C08_src_purge_segments.
+
+Example C08_src_round2_nonvacuous : src_timeperiod_remove_segment_iter_recognised = true -> src_timeperiod_add_segment_iter_recognised = true ->
+  snd (src_timeperiod_remove_segment_iter 10 20 5 30) = [(5, 10); (20, 30)] /\
+  snd (src_timeperiod_remove_segment_iter 10 20 10 30) = [(20, 30)] /\
+  src_timeperiod_add_segment_iter 10 20 15 30 = (true, 10, 30).
+Proof. intros H1 H2; xl_rec H1; xl_rec H2. all: repeat split; vm_compute; reflexivity. Qed.
